@@ -27,6 +27,9 @@ import (
 type eventCh[T any] struct {
 	id int
 	ch chan<- T
+	// closeEventCh is closed when the subscriber's forwarder has stopped
+	// receiving from ch, before it waits for the batcher lock to deregister.
+	closeEventCh chan struct{}
 }
 
 // Batcher is a one to many event batcher. It batches events and sends them to
@@ -83,14 +86,21 @@ func (b *Batcher[K, T]) subscribe(ctx context.Context, ch chan<- T) {
 	id := b.currentID
 	b.currentID++
 	bufferedCh := make(chan T, 50)
+	closeEventCh := make(chan struct{})
 	b.eventChs = append(b.eventChs, &eventCh[T]{
-		id: id,
-		ch: bufferedCh,
+		id:           id,
+		ch:           bufferedCh,
+		closeEventCh: closeEventCh,
 	})
 
 	b.wg.Add(1)
 	go func() {
 		defer func() {
+			// Signal execute that nothing reads bufferedCh any more before
+			// waiting for the lock: execute may be holding it, blocked on a
+			// send to this subscriber's full buffer.
+			close(closeEventCh)
+
 			b.lock.Lock()
 			close(ch)
 			for i, eventCh := range b.eventChs {
@@ -129,6 +139,7 @@ func (b *Batcher[K, T]) execute(i *item[K, T]) {
 	for _, ev := range b.eventChs {
 		select {
 		case ev.ch <- i.value:
+		case <-ev.closeEventCh:
 		case <-b.closeCh:
 		}
 	}
